@@ -21,6 +21,19 @@ _current_test = ['']
 _schema_hist = []
 
 
+
+def _schema_exc_name(e):
+    """Subclasses of the jsonschema error classes the property names count as those classes (benign E19)."""
+    try:
+        import jsonschema
+        for base in (jsonschema.SchemaError, jsonschema.ValidationError):
+            if isinstance(e, base):
+                return base.__name__
+    except Exception:
+        pass
+    return type(e).__name__
+
+
 def _install():
     from harness import hj
     from athlib.highjump import HighJumpCompetition as HJ
@@ -102,7 +115,7 @@ def _install():
                 try:
                     _schema_hist.append({'fn': name, 'args': [_plain(a) for a in args],
                                          'kwargs': {k: _plain(v) for k, v in kwargs.items()},
-                                         'out': ('exc:' + type(err).__name__) if err is not None else 'ret:%r' % (res,),
+                                         'out': ('exc:' + _schema_exc_name(err)) if err is not None else 'ret:%r' % (res,),
                                          'test': _current_test[0]})
                 except Exception:
                     pass
